@@ -100,6 +100,11 @@ def azimuthal_clause(cl, rng, n, replay):
                 r = (None if rng.random() < 0.5 else float(rng.uniform(0.2, 0.8)), None if rng.random() < 0.5 else float(rng.uniform(8, 20)))
                 h.update_peaks_bounded(search_range_in_hz=r)
                 hist.append(("range", r))
+            if rng.random() < 0.5:
+                # the object is looked at (as a first write or a plot would) before its windows are rejected: what is written later is its later state
+                for dd in ("lognormal", "normal"):
+                    h.mean_curve(dd), h.std_curve(dd), h.mean_fn_frequency(dd)
+                hist.append(("statistics-read-before-rejection",))
             if rng.random() < 0.4:
                 # the library's own rejection with a search range of its own (the range it used must survive the round trip too)
                 r = (None if rng.random() < 0.3 else float(rng.uniform(0.2, 0.8)), None if rng.random() < 0.3 else float(rng.uniform(8, 20)))
